@@ -225,6 +225,158 @@ def _explode_param_object(ctx):
         return
 
 
+def _repr_row_writer(prog):
+    """the recursive row writer of _Repr under whatever name: the one method of _Repr that calls itself and that _Repr.repr
+    calls (None when there is none or more than one)"""
+    from sa.model import AnchorMissing
+    try:
+        top = prog.func(REPR)
+    except AnchorMissing:
+        return None
+    cands = [g for g in prog.all_funcs() if g.qual.startswith('task._Repr.') and g.qual.count('.') == 2 and g is not top
+             and facts.calls_named(g, g.name) and facts.calls_named(top, g.name)]
+    return cands[0] if len(cands) == 1 else None
+
+
+def _inline_deferred_rows(ctx):
+    """rendering split into two phases: the recursive row writer only appends `(colour, cell texts)` to a plain list that
+    _Repr.repr created empty (`rows.append((color, values))`), and _Repr.repr fills the table from that list afterwards
+    (`for color, values in rows: table.new_row(color); for v in values: table.new_cell(v)`).  The list is appended to in visit
+    order and consumed once, in order, after the whole collection, and nothing else touches the table in between - so the table
+    receives exactly the calls it would receive if the consumer body ran at the place of each append.  The parsed tree is
+    rewritten to that direct form (the list parameter becomes the table) before cfg / flow / call graph are built; purely
+    syntactic, and only when every use of the list is one of: creation, hand-over to the writer, append in the writer, the one
+    consumer loop."""
+    import copy as _copy
+    prog = ctx.prog
+    f = _repr_row_writer(prog)
+    if f is None:
+        return
+    top = prog.func(REPR)
+    a = f.node.args
+    if a.posonlyargs or a.kwonlyargs or a.vararg or a.kwarg or a.defaults:
+        return
+    params = [x.arg for x in a.args]
+    own_call = lambda c: (isinstance(c.func, ast.Attribute) and unmangle(c.func.attr) == f.name) or (isinstance(c.func, ast.Name) and c.func.id == f.name)
+    top_calls = [c for c in ast.walk(top.node) if isinstance(c, ast.Call) and own_call(c)]
+    if len(top_calls) != 1 or top_calls[0].keywords or len(top_calls[0].args) != len(params):
+        return
+    call = top_calls[0]
+    body = top.node.body
+    for idx, arg in enumerate(call.args):
+        if not isinstance(arg, ast.Name):
+            continue
+        L = arg.id
+        uses = [n for n in ast.walk(top.node) if isinstance(n, ast.Name) and n.id == L]
+        init = [(i, st) for i, st in enumerate(body) if isinstance(st, ast.Assign) and len(st.targets) == 1 and isinstance(st.targets[0], ast.Name)
+                and st.targets[0].id == L and ((isinstance(st.value, ast.List) and not st.value.elts) or match("list()", st.value))]
+        cons = [(i, st) for i, st in enumerate(body) if isinstance(st, ast.For) and isinstance(st.iter, ast.Name) and st.iter.id == L]
+        feed = [i for i, st in enumerate(body) if any(x is call for x in ast.walk(st))]
+        if len(uses) != 3 or len(init) != 1 or len(cons) != 1 or len(feed) != 1 or not (init[0][0] < feed[0] < cons[0][0]):
+            continue
+        loop = cons[0][1]
+        tg = loop.target
+        tnames = [e.id for e in tg.elts] if isinstance(tg, ast.Tuple) and all(isinstance(e, ast.Name) for e in tg.elts) else None
+        if tnames is None or len(set(tnames)) != len(tnames) or loop.orelse:
+            continue
+        if any(isinstance(n, (ast.Break, ast.Continue, ast.Return, ast.Yield, ast.YieldFrom, ast.FunctionDef, ast.Lambda, ast.Try, ast.Global,
+                              ast.Nonlocal)) for st in loop.body for n in ast.walk(st)):
+            continue
+        stored = {n.id for st in loop.body for n in ast.walk(st) if isinstance(n, ast.Name) and isinstance(n.ctx, ast.Store)}
+        top_locals = set(top.params) | {n.id for n in ast.walk(top.node) if isinstance(n, ast.Name) and isinstance(n.ctx, ast.Store)}
+        free = {n.id for st in loop.body for n in ast.walk(st) if isinstance(n, ast.Name) and isinstance(n.ctx, ast.Load)} - stored - set(tnames)
+        free &= top_locals
+        tabs = _table_names(ctx, top)
+        if len(free) != 1 or not free <= tabs or stored & set(tnames):
+            continue
+        T = next(iter(free))
+        # nothing touches the table (or reads the list variables later) between the creation of the list and the end of the consumer
+        if any(isinstance(n, ast.Name) and n.id == T for st in body[init[0][0] + 1:cons[0][0]] for n in ast.walk(st)):
+            continue
+        if any(isinstance(n, ast.Name) and n.id in (stored | set(tnames)) for st in body[cons[0][0] + 1:] for n in ast.walk(st)):
+            continue
+        # inside the writer: the list is only appended to (a tuple of the right arity) and handed on unchanged
+        prm = params[idx]
+        fuses = [n for n in ast.walk(f.node) if isinstance(n, ast.Name) and n.id == prm]
+        rec = [c for c in ast.walk(f.node) if isinstance(c, ast.Call) and own_call(c)]
+        handed = {id(c.args[idx]) for c in rec if not c.keywords and len(c.args) == len(params) and isinstance(c.args[idx], ast.Name)
+                  and c.args[idx].id == prm}
+        appends = {}
+
+        def find_appends(stmts):
+            for st in stmts:
+                if isinstance(st, ast.Expr) and isinstance(st.value, ast.Call) and match(f"{prm}.append($x)", st.value):
+                    appends[id(st.value.func.value)] = st
+                for fld in ('body', 'orelse', 'finalbody'):
+                    if isinstance(getattr(st, fld, None), list) and not isinstance(st, (ast.FunctionDef, ast.ClassDef)):
+                        find_appends(getattr(st, fld))
+        find_appends(f.node.body)
+        if not appends or len(handed) != len(rec) or any(id(n) not in handed and id(n) not in appends for n in fuses):
+            continue
+        ok = True
+        from sa.cfg import CFG as _CFG
+        fcfg = _CFG(f.body)          # not cached: the body is rewritten below
+        for st in appends.values():
+            x = st.value.args[0]
+            if not (isinstance(x, ast.Tuple) and len(x.elts) == len(tnames) and all(isinstance(e, (ast.Name, ast.Constant)) for e in x.elts)):
+                ok = False
+                break
+            # what was appended is not changed afterwards (the consumer reads it only at the end)
+            given = {e.id for e in x.elts if isinstance(e, ast.Name)}
+            sn_ = fcfg.node_of(st)
+            for n in walk_no_nested(f.node):
+                if isinstance(n, ast.stmt) and n is not st and fcfg.node_of(n) is not None and fcfg.can_reach(sn_, fcfg.node_of(n)):
+                    heads = [n.test] if isinstance(n, (ast.If, ast.While)) else [n.iter, n.target] if isinstance(n, ast.For) else [n]
+                    if any(isinstance(y, ast.Name) and y.id in given for h in heads for y in ast.walk(h)):
+                        ok = False
+        if not ok:
+            continue
+        taken = {n.id for n in ast.walk(f.node) if isinstance(n, ast.Name)} | set(params)
+        tname = T if T not in taken else f"{prm}__table"
+        ren = {v: (v if v not in taken else f"{v}__d") for v in stored}
+        ren[T] = tname
+
+        def body_for(x):
+            sub = dict(zip(tnames, x.elts))
+
+            class Tr(ast.NodeTransformer):
+                def visit_Name(self, n):
+                    if n.id in sub and isinstance(n.ctx, ast.Load):
+                        return ast.copy_location(_copy.deepcopy(sub[n.id]), n)
+                    if n.id in ren:
+                        return ast.copy_location(ast.Name(id=ren[n.id], ctx=n.ctx), n)
+                    return n
+            return [Tr().visit(_copy.deepcopy(b)) for b in loop.body]
+
+        def rewrite(stmts):
+            out = []
+            for st in stmts:
+                for fld in ('body', 'orelse', 'finalbody'):
+                    if isinstance(getattr(st, fld, None), list) and not isinstance(st, (ast.FunctionDef, ast.ClassDef)):
+                        setattr(st, fld, rewrite(getattr(st, fld)))
+                if any(st is s for s in appends.values()):
+                    new = body_for(st.value.args[0])
+                    for b in new:
+                        for n in ast.walk(b):
+                            ast.copy_location(n, st)
+                    out.extend(new)
+                else:
+                    out.append(st)
+            return out
+        f.node.body = rewrite(f.node.body)
+        for c in [c for c in ast.walk(f.node) if isinstance(c, ast.Call) and own_call(c)]:
+            c.args[idx] = ast.copy_location(ast.Name(id=tname, ctx=ast.Load()), c.args[idx])
+        old = f.node.args.args[idx]
+        f.node.args.args[idx] = ast.copy_location(ast.arg(arg=tname, annotation=ast.copy_location(ast.Name(id='TextTable', ctx=ast.Load()), old)), old)
+        call.args[idx] = ast.copy_location(ast.Name(id=T, ctx=ast.Load()), call.args[idx])
+        top.node.body = [st for st in body if st is not init[0][1] and st is not loop]
+        ast.fix_missing_locations(f.node)
+        ast.fix_missing_locations(top.node)
+        ctx.assume(f"{f.name} collects (" + ', '.join(tnames) + f") in the list `{L}` and _Repr.repr fills the table from it afterwards: read as "
+                   f"the table calls made at the place of each `{prm}.append(..)`")
+        return
+
+
 def _splice_receiver_helpers(ctx, qual):
     """inside function `qual`: a statement `r.helper(a, b)` on a local receiver, where `helper` is a procedure-like method that
     exactly one package class defines and that is not part of the table API, is replaced by the helper's body with self -> r
@@ -305,6 +457,7 @@ def _splice_receiver_helpers(ctx, qual):
 
 def check(ctx):
     _classmethods_as_static(ctx)
+    _inline_deferred_rows(ctx)
     _explode_param_object(ctx)
     _splice_receiver_helpers(ctx, 'utils.TextTable.text_repr')
     ctx.assume("attribute values reach the table as str (str(), strftime, literals); multi-line texts are out of scope")
@@ -372,6 +525,8 @@ def _subtree(ctx):
                     continue
                 if facts.calls_named(g, g.name) and facts.calls_named(top, g.name):
                     f = g
+        if f is None:
+            f = _repr_row_writer(prog)      # renamed: the one method of _Repr that calls itself and is called by _Repr.repr
         if f is None:
             raise
     ctx._c20_subtree = f
@@ -1438,8 +1593,45 @@ def _callers(ctx):
                 o.undecided(g, c, c, f"{g.qual} renders through {sf.qual}, which replaces some of fields / children / theme")
                 continue
             o.site(g, c, src(c))
+        def delegated(q, g):
+            """an entry point that renders through ANOTHER entry point of the table (`self.roots.print(fields, children, theme)`,
+            `self.roots.__repr__()`): the tasks shown are those of the other entry point read on the receiver; print must hand
+            on its own fields / children / theme.  The other entry point is judged in its own right.  True when decided."""
+            cands = []
+            for c in [n for n in walk_no_nested(g.node) if isinstance(n, ast.Call) and isinstance(n.func, ast.Attribute)]:
+                tg = helper.target_of(c, g)
+                if tg is not None and tg.qual in want and tg.qual != q and tg.name == g.name:
+                    cands.append((c, tg))
+            if len(cands) != 1 or cfg_of(g).conditions(cfg_of(g).node_containing(cands[0][0])):
+                return False
+            c, tg = cands[0]
+            ex = Expander(prog, g, ctx.typer)
+            recv = ex.expand(c.func.value)
+            shown = subst(ast.parse(want[tg.qual], mode='eval').body, {'self': recv})
+            sn = g.self_name or 'self'
+            if not match(want[q].replace('self', sn), shown):
+                o.refute(g, c, c.func.value, f"prints `{src(shown)}` (through {tg.qual}), expected `{want[q]}`")
+                return True
+            if g.name == 'print':
+                b = bind_args(c, tg, drop_self=True)
+                if b is None:
+                    o.undecided(g, c, c, f"call of {tg.qual} with */** arguments")
+                    return True
+                bad = [p for p in ('fields', 'children', 'theme')
+                       if not (p in tg.params and isinstance(b.get(p), ast.Name) and b[p].id == p and p in g.params
+                               and all(d.kind == 'param' for d in flow_of(g).defs_of(p)))]
+                if bad:
+                    given = ', '.join(f"{p}={src(b[p])}" if b.get(p) is not None else f"{p} left at its default" for p in bad)
+                    o.refute(g, c, c, f"{q} prints through {tg.qual} but does not pass its `{', '.join(bad)}` argument(s) on ({given}): "
+                                      f"print() ignores what the caller asked for")
+                    return True
+            o.site(g, c, f"{src(c)[:80]} (delegates to {tg.qual}, which is an entry point itself)")
+            return True
+
         for q in want:
             g = prog.func(q)
+            if q not in seen and delegated(q, g):
+                continue
             if q not in seen:
                 other = [c for c in walk_no_nested(g.node) if isinstance(c, ast.Call) and (
                     helper.target_of(c, g) is not None or (isinstance(c.func, ast.Attribute) and isinstance(c.func.value, ast.Name)
@@ -1581,6 +1773,30 @@ def _width(ctx):
                     if any(_iter_in_order(ex.expand(fo.iter, cfg.node_of(fo)), rows) for fo in fors):
                         o.refute(f, n, n, f"the width update `{src(n)[:80]}` inside the loop over the rows does not measure any cell text")
                         return
+            # no running maximum: the widths list handed to row.repr may be computed column by column
+            row_repr = prog.func(ROW_REPR)
+            was = []
+            for c in facts.calls_named(f, 'repr'):
+                if isinstance(c.func, ast.Attribute) and base(ctx.typer.expr_type(c.func.value, f)) == '_TextTableRow':
+                    b = bind_args(c, row_repr, drop_self=True)
+                    wa = b.get(row_repr.params[1]) if b else None
+                    if wa is not None:
+                        was.append(ex.expand(wa, cfg.node_containing(c)))
+            cols = [_colwise(w, rows) for w in was]
+            if cols and all(v is not None for v in cols):
+                for v in cols:
+                    for kind, node, text in v:
+                        if kind == 'site':
+                            o.site(f, node, text)
+                        elif kind == 'refute':
+                            o.refute(f, node, node, text)
+                        else:
+                            o.undecided(f, node, node, text)
+                if all(kind == 'site' for v in cols for kind, _n, _t in v):
+                    info['colwise'] = True
+                return
+            if _widths_kept_outside(ctx, o, f, was):
+                return
             o.undecided(f, f.node, 'text_repr', "no width accumulation of the form `W[i] = max(len(cell.text), W[i])` found")
             return
         for st in stores:
@@ -1764,6 +1980,13 @@ def _width(ctx):
                 o.undecided(f, c, c, "widths argument of row.repr not found")
                 continue
             w = ex.expand(wa, cn, stop={W} if W else None)
+            if W is None and info.get('colwise'):
+                v = _colwise(w, rows)
+                if v is not None and all(kind == 'site' for kind, _n, _t in v):
+                    o.site(f, c, f"widths = {src(w)[:100]} (one entry per column, in index order, computed from all rows)")
+                else:
+                    o.undecided(f, c, wa, f"widths list `{src(w)[:90]}` is not the column-by-column maximum that was recognised")
+                continue
             if W is None:
                 o.undecided(f, c, wa, "the widths accumulation was not recognised, so the widths list cannot be compared with it")
                 continue
@@ -1979,6 +2202,191 @@ def _list_grow_branch(f, st, W, I, R, conds, ex, cfg, fors):
         if isinstance(n, (ast.AugAssign, ast.Delete)) and any(root_name(t) == W for t in (n.targets if isinstance(n, ast.Delete) else [n.target])):
             return None
     return other[0]
+
+
+def _widths_kept_outside(ctx, o, f, was):
+    """text_repr measures nothing itself and hands row.repr an attribute of the table (`self.__widths`).  Recognised and refuted:
+    the attribute is a running maximum that ONE other method M (new_row) updates from the cells of `self.<current row>` BEFORE it
+    replaces that row by a fresh one, while cells reach the current row later (new_cell) - the row that is current when
+    text_repr runs, i.e. the last line, is never measured.  True when a verdict was recorded."""
+    prog = ctx.prog
+    sn = f.self_name
+    if not sn or len(was) == 0:
+        return False
+    paths = {attr_path(w) for w in was}
+    if len(paths) != 1 or None in paths:
+        return False
+    path = paths.pop()
+    if not (path.startswith(sn + '.') and path.count('.') == 1):
+        return False
+    X = path.split('.')[1]
+    users = [g for g in prog.all_funcs() if g.cls == f.cls and g is not f and g.self_name
+             and any(isinstance(n, ast.Attribute) and n.attr == X for n in ast.walk(g.node))]
+    writers = []
+    for g in users:
+        gs = g.self_name
+        sub_stores = [n for n in walk_no_nested(g.node) if isinstance(n, ast.Assign) and len(n.targets) == 1
+                      and isinstance(n.targets[0], ast.Subscript) and attr_path(n.targets[0].value) == f"{gs}.{X}"]
+        if sub_stores:
+            writers.append((g, sub_stores))
+        elif g.name != '__init__':
+            return False            # read / changed somewhere else: not the closed shape described above
+    if len(writers) != 1 or len(writers[0][1]) != 1:
+        return False
+    g, (st,) = writers[0]
+    gs = g.self_name
+    gcfg = cfg_of(g)
+    I = st.targets[0].slice
+    args = facts.flatten_lattice(st.value, 'max')
+    if args is None:
+        return False
+    cur = None
+    for a in args:
+        m = match("len($c.text)", a)
+        cell = _cell_of(m['c'], idx=I) if m else None
+        if cell:
+            p = attr_path(cell[0])
+            if p and p.startswith(gs + '.') and p.count('.') == 1:
+                cur = p
+    if cur is None or not any(match(f"{gs}.{X}[$i]", a) and same(match(f"{gs}.{X}[$i]", a)['i'], I) for a in args):
+        return False
+    stn = gcfg.node_of(st)
+    fresh = [n for n in walk_no_nested(g.node) if isinstance(n, ast.Assign) and any(attr_path(t) == cur for t in n.targets)
+             and isinstance(n.value, ast.Call)]
+    if len(fresh) != 1:
+        return False
+    frn = gcfg.node_of(fresh[0])
+    if not (gcfg.can_reach(stn, frn) and not gcfg.can_reach(frn, stn)):
+        return False
+    # cells reach the current row in another method, which does not measure them
+    cur_attr = cur.split('.')[1]
+    adders = [h for h in prog.all_funcs() if h.cls == f.cls and h is not g and h.self_name and any(
+        isinstance(c, ast.Call) and isinstance(c.func, ast.Attribute) and c.func.attr in ('add_cell', 'append')
+        and (attr_path(c.func.value) or '').startswith(f"{h.self_name}.{cur_attr}") for c in walk_no_nested(h.node))]
+    if not adders or any(h in users for h in adders):
+        return False
+    o.refute(g, st, st, f"the column widths are kept in `{unmangle(X)}`, which only {g.name} updates - from the cells of "
+                        f"`{gs}.{unmangle(cur_attr)}` BEFORE it starts the next row (`{src(fresh[0])[:60]}`); {adders[0].name} adds cells to the "
+                        f"current row afterwards and text_repr hands `{sn}.{unmangle(X)}` to row.repr as it is: the cells of the last row "
+                        f"are never measured, a longest cell on the last line overflows its column")
+    return True
+
+
+def _extreme_over(e):
+    """`max(<comp>)` / `max(<comp>, default=K)` / `min(..)` over ONE comprehension: (fn, comprehension, default or None) else None"""
+    if not (isinstance(e, ast.Call) and isinstance(e.func, ast.Name) and e.func.id in ('max', 'min') and len(e.args) == 1
+            and isinstance(e.args[0], (ast.GeneratorExp, ast.ListComp)) and len(e.args[0].generators) == 1
+            and all(k.arg == 'default' for k in e.keywords) and len(e.keywords) <= 1):
+        return None
+    return e.func.id, e.args[0], (e.keywords[0].value if e.keywords else None)
+
+
+def _colwise(w, rows):
+    """widths computed column by column instead of by a running maximum over the rows:
+        [max(len(r.get_cell(i).text) for r in ROWS if i < len(r)) for i in range(max((len(r) for r in ROWS), default=0))]
+    Returns None when `w` is not of that family, else a list of (kind, node, text) with kind in site / refute / undecided: four
+    sites (measure, rows of the measure, the in-range filter, the index range) when the list is the column maxima of ALL rows."""
+    if isinstance(w, ast.Call) and isinstance(w.func, ast.Name) and w.func.id in ('list', 'tuple') and len(w.args) == 1 and not w.keywords:
+        w = w.args[0]
+    if not (isinstance(w, (ast.ListComp, ast.GeneratorExp)) and len(w.generators) == 1 and isinstance(w.generators[0].target, ast.Name)):
+        return None
+    og = w.generators[0]
+    i = og.target.id
+    elt = w.elt
+    out = []
+    inner = _extreme_over(elt)
+    if inner is None:
+        # min(max(..), K) and friends: the column maximum made smaller
+        for cand in [x for x in ast.walk(elt) if _extreme_over(x) and _extreme_over(x)[0] == 'max']:
+            q = _narrowed(elt, cand)
+            if q and _colwise(ast.ListComp(elt=cand, generators=w.generators), rows) is not None:
+                return [('refute', elt, f"the widths list is `{src(w)[:90]}`: column widths are {q}, but cell texts are neither cut nor "
+                                        f"wrapped - a longer cell overflows its column and that line is wider than the others")]
+        return None
+    fn, comp, _default = inner
+    g = comp.generators[0]
+    m = match("len($c.text)", comp.elt)
+    if not (isinstance(g.target, ast.Name) and any(isinstance(x, ast.Attribute) and x.attr == 'text' for x in ast.walk(comp.elt))):
+        return None
+    r = g.target.id
+    if og.ifs:
+        out.append(('undecided', w, f"the column list `{src(w)[:80]}` is filtered"))
+    # the measure
+    if fn == 'min':
+        out.append(('refute', elt, f"the column width `{src(elt)[:90]}` is the MINIMUM of the cell lengths: longer cells overflow their column"))
+    elif not m:
+        if isinstance(comp.elt, ast.BinOp) and isinstance(comp.elt.op, ast.Sub) and match("len($c.text)", comp.elt.left):
+            out.append(('refute', comp.elt, f"column width uses `{src(comp.elt)}`: narrower than the longest cell"))
+        else:
+            out.append(('undecided', comp.elt, f"width operand `{src(comp.elt)}` is not len(cell.text)"))
+    else:
+        cell = _cell_of(m['c'])
+        if cell and isinstance(cell[0], ast.Name) and cell[0].id == r and isinstance(cell[1], ast.Name) and cell[1].id == i:
+            out.append(('site', comp.elt, f"widths[{i}] = {fn}({src(comp.elt)} for {r} in ..)"))
+        elif cell and isinstance(cell[0], ast.Name) and cell[0].id == r:
+            out.append(('refute', comp.elt, f"width of column `{i}` is computed from cell `{src(cell[1])}`"))
+        else:
+            out.append(('undecided', comp.elt, f"width operand `{src(comp.elt)}` is not the cell `{i}` of the row `{r}`"))
+    # the rows that are measured (the order does not matter for a maximum)
+    q = _iter_in_order(g.iter, rows)
+    if q == 'ok' or (q and q[1] == 'order'):
+        out.append(('site', g.iter, f"for {r} in {src(g.iter)}"))
+    elif q:
+        out.append(('refute', g.iter, "width loop " + q[2] + ": cells of the other rows can be wider than their column"))
+    else:
+        out.append(('undecided', g.iter, f"width loop iterates `{src(g.iter)}`, not the rows of the table"))
+    # rows that reach the column, and only those, are left out
+    in_range = lambda t, pol: (lambda c: bool(c and ((c[1] == '<' and (match(f"len({r})", c[2]) or match(f"len({r}.cells)", c[2])))
+                                                     or (c[1] == '<=' and (match(f"len({r}) - 1", c[2]) or match(f"len({r}.cells) - 1", c[2]))))))(
+        cmp_oriented(t, pol, lambda x: isinstance(x, ast.Name) and x.id == i))
+    atoms = [a for t in g.ifs for a in facts.split_conj(t, True)]
+    rest = [a for a in atoms if not in_range(*a)]
+    if atoms and not rest:
+        out.append(('site', g.ifs[0], f"only rows without a cell `{i}` are left out ({src(g.ifs[0])})"))
+    elif rest:
+        out.append(('undecided', rest[0][0], f"rows are left out of the column maximum under `{src(rest[0][0])}`: not understood as "
+                                             f"`{i} < len({r})`"))
+    else:
+        out.append(('undecided', comp, f"every row is asked for its cell `{i}` (no `{i} < len({r})` filter): not followed for rows of "
+                                       f"different lengths"))
+    # the columns: 0 .. (cell count of the longest row) - 1
+    rg = range_over(og.iter)
+    if rg is None:
+        out.append(('undecided', og.iter, f"column loop `{src(og.iter)[:80]}` is not a range over the column indexes"))
+        return out
+    a, b, step = rg
+    if step is not None and not (isinstance(step, ast.Constant) and step.value == 1):
+        out.append(('refute', og.iter, f"column loop `{src(og.iter)[:80]}` steps by {src(step)}: columns are skipped"))
+        return out
+    if not is_zero(a):
+        out.append(('refute', og.iter, f"column loop `{src(og.iter)[:80]}` starts at {src(a)}: the first column(s) get no width") if isinstance(a, ast.Constant)
+                   else ('undecided', og.iter, f"column loop `{src(og.iter)[:80]}` does not start at 0"))
+        return out
+    n = b
+    if isinstance(n, ast.IfExp) and facts.const_num(n.orelse) == 0 and _extreme_over(n.body) and match(rows, n.test):
+        n = n.body                                      # max(..) if rows else 0
+    cnt = _extreme_over(n)
+    if cnt is None:
+        if isinstance(n, ast.BinOp) and isinstance(n.op, ast.Sub) and _extreme_over(n.left) and facts.const_num(n.right):
+            out.append(('refute', og.iter, f"column loop `{src(og.iter)[:80]}` does not cover every index (bound `{src(n)[:60]}`)"))
+        else:
+            out.append(('undecided', og.iter, f"column count `{src(n)[:80]}` is not the cell count of the longest row"))
+        return out
+    cfn, ccomp, cdef = cnt
+    cg = ccomp.generators[0]
+    cq = _iter_in_order(cg.iter, rows)
+    len_of_row = isinstance(cg.target, ast.Name) and (match(f"len({cg.target.id})", ccomp.elt) or match(f"len({cg.target.id}.cells)", ccomp.elt))
+    if cfn == 'min' and len_of_row:
+        out.append(('refute', n, f"the number of columns `{src(n)[:80]}` is the cell count of the SHORTEST row: the other columns get no width"))
+    elif not len_of_row or cg.ifs or (cdef is not None and facts.const_num(cdef) != 0):
+        out.append(('undecided', n, f"column count `{src(n)[:80]}` is not the cell count of the longest row"))
+    elif cq == 'ok' or (cq and cq[1] == 'order'):
+        out.append(('site', og.iter, f"for {i} in {src(og.iter)[:80]}"))
+    elif cq:
+        out.append(('refute', cg.iter, "column count " + cq[2] + ": a longer row among the others has columns without a width"))
+    else:
+        out.append(('undecided', cg.iter, f"column count iterates `{src(cg.iter)}`, not the rows of the table"))
+    return out
 
 
 def _widths_elem(w, W):
